@@ -325,7 +325,7 @@ def run(c, chk):
     from . import c09
     ex_ = sym.Explorer(c.modules, max_visits=2, mod_sets=c.mod_sets, max_paths=60000)
     ts = c09.title_sites(c, ex_)
-    if 'cfg_t' in ts.get('cfg_setopt', set()):
+    if 'cfg_t' in c09.merge_words(c, ts):
         chk.ok('R1.5', 'cfg_setopt: title merge', 'an incoming title is compared with the existing ones under cfg->flags CFGF_NOCASE', sample=True)
     else:
         chk.fail('R1.5', 'title-merge-case:cfg_setopt', c.where(c.need('cfg_setopt')),
